@@ -18,6 +18,18 @@ from .c15 import candidate_facts, gen_population
 PREFIX_CLASSES = ["Org", "Agent"]
 
 
+def sweep():
+    """a query evaluation triggers the sweep of dead instances; its domain is explicit and unrelated, because a
+    domain-less variable would pin the instances it ranges over (expression registries are process-wide, see the
+    C20 finding) and nothing would ever die in this history"""
+    from krrood.entity_query_language.entity import entity, let
+    from krrood.entity_query_language.quantify_entity import an
+
+    x = let(int, [1])
+    list(an(entity(x)).evaluate())
+    del x
+
+
 def run_prefix(ops):
     """executes the garbage prefix; returns statistics"""
     from krrood.entity_query_language.entity import entity, let
@@ -61,12 +73,7 @@ def run_prefix(ops):
         elif k == "gc":
             gc.collect()
         elif k == "sweep":
-            # a query evaluation triggers the sweep of dead instances; its domain is explicit and unrelated, because
-            # a domain-less variable would pin the instances it ranges over (expression registries are process-wide,
-            # see the C20 finding) and nothing would ever die in this history
-            x = let(int, [1])
-            list(an(entity(x)).evaluate())
-            del x
+            sweep()
         elif k == "drop_all":
             stats["related_then_died"] += sum(1 for x in live if id(x) in related)
             live.clear()
@@ -77,6 +84,9 @@ def run_prefix(ops):
 def run_suffix(suffix):
     inst, classes, taker = M.make_population(suffix["pop"])
     for st_ in suffix["steps"]:
+        if st_["form"] == "sweep":
+            sweep()
+            continue
         s, f, ts, form = st_["s"], st_["f"], st_["t"], st_["form"]
         obj = inst[s]
         if form == "assign":
@@ -101,7 +111,8 @@ class C14(Check):
         "Hypothesis draws a garbage prefix (create/relate/drop/gc/sweep-by-query operations in any order and number, "
         "so that graph node indexes and object ids are recycled) and a suffix (a population and 1-6 relation "
         "assertions: direct PropertyDescriptorRelation(...).add_to_graph(), single-valued assignment, container "
-        "append/add). Oracle: differential - the suffix alone on a freshly cleared graph versus the same suffix "
+        "append/add, interleaved with sweeps-by-query so that dead prefix instances are swept when their ids may "
+        "already belong to suffix objects). Oracle: differential - the suffix alone on a freshly cleared graph versus the same suffix "
         "after the prefix; fields of every suffix object and the graph relations among suffix objects must be "
         "identical (and equal to the reference closure). Non-trivial: the prefix related >= 2 instances that died "
         "before the suffix. Distinct = distinct IR."
@@ -155,6 +166,10 @@ class C14(Check):
                 form = "assign" if kind == "single" else ("append" if kind == "list" else "add")
                 if kind != "single" and draw(st.sampled_from([0, 0, 1])):
                     form = "direct"
+                if draw(st.sampled_from([0, 0, 0, 1])):
+                    # dead instances of the prefix are swept in the middle of the suffix, when their ids may already
+                    # belong to suffix objects
+                    steps.append({"s": 0, "f": "", "t": [], "form": "sweep"})
                 steps.append({"s": s, "f": f, "t": [t], "form": form})
             return {"prefix": prefix, "suffix": {"pop": pop, "steps": steps}}
 
@@ -166,7 +181,7 @@ class C14(Check):
             M.reset_graph()
             gc.collect()
             _, cls, taker, graph_a, fields_a = run_suffix(ir["suffix"])
-            facts = [(s["s"], s["f"], t) for s in ir["suffix"]["steps"] for t in s["t"]]
+            facts = [(s["s"], s["f"], t) for s in ir["suffix"]["steps"] for t in s["t"]]  # sweep steps have no targets
             del _
             want = M.closure(facts, cls, taker)
             # a direct add_to_graph() records the relation and infers from it, but writing the source's own field is
